@@ -58,6 +58,7 @@ pub fn probe_points(rng: &mut Rng, su: &Setup, n: usize) -> Vec<Vec<f64>> {
 fn case(item: u64, rng: &mut Rng, acc: &mut Acc, quick: bool) {
     let mut o = GraphOpts::std(if quick { 6 } else { 9 });
     o.allow_single_external = true;
+    o.big_loop_prob = 0.06;
     let Some(su) = Setup::random(rng, &o, 3, 8) else {
         acc.count("setup_failed");
         return;
